@@ -72,6 +72,9 @@ def main():
             verdict = f"engine error (exit {r['exit']})"
         if not isinstance(meta.get("checks"), dict):
             meta["checks"] = {}
+        prev = meta["checks"].get(f"{pid}:quick") or {}
+        if "when" in prev or (prev.get("verdict") == "caught" and verdict != "caught"):
+            continue  # a later complete sweep (tools/sweep_seeds.py, tools/alt_sweep.py) has judged this change
         meta["checks"][f"{pid}:quick"] = {"check": f"./check.sh {pid} --tier quick", "verdict": verdict, "exit": r["exit"],
                                           "signatures": r["signatures"][:8], "summary": r["summary"], "source": "run log " + r["log"]}
         json.dump(meta, open(mp, "w"), indent=1)
